@@ -65,8 +65,12 @@ def local_guard_strength(ctx, owner_cls, m, fn, sink_node, value_expr, lo, hi, w
     """strength of the raising guards on value_expr that dominate sink_node inside fn (callees of self.* one level)"""
     ev, repo = ctx.ev, ctx.repo
     strengths, notes = [], []
+    # a bound hoisted into a local (`limit = 2 ** BITS`) stands for its expression
+    bound_defs = {k_: v_ for k_, v_ in A.single_defs(fn).items() if not any(isinstance(x_, (ast.Call, ast.Attribute)) and not (isinstance(x_, ast.Attribute) and not A.is_self_attr(x_)) for x_ in ast.walk(v_))}
     for st in G.dominating_stmts(fn, sink_node):
         cond = G.raising_condition(st)
+        if cond is not None:
+            cond = A.expand(cond, bound_defs)
         if cond is not None and G.mentions(cond, value_expr):
             s = G.range_strength(ev, m, cond, value_expr, lo, hi)
             if s is None:
